@@ -70,6 +70,7 @@ type hOpen struct {
 	herr    error
 	finished bool
 	parked  bool
+	fwdMap  string // mapping of the routing record at the moment THIS request was forwarded
 	waiting bool // inside handleLocalBridgeWait: the record said "on this node", it polls tunnelBridges for a bridge to appear
 	skip    int
 }
@@ -93,16 +94,17 @@ func runHist(w *world, in histIn) (out histOut) {
 		must(err)
 		return m
 	}
-	keys := map[string]string{"m1": fmt.Sprintf("hk%d-one", base), "m2": fmt.Sprintf("hk%d-two", base), "m3": fmt.Sprintf("hk%d-srv", base)}
+	keys := map[string]string{"m1": fmt.Sprintf("hk%d-one", base), "m2": fmt.Sprintf("hk%d-two", base), "m3": fmt.Sprintf("hk%d-srv", base), "m4": ""}
 	// m3: a SERVER-SIDE listener (stored listening client id 0), target client T
-	maps := map[string]*models.PortMapping{"m1": mk(w.L.id, w.T.id, keys["m1"]), "m2": mk(w.S.id, w.X.id, keys["m2"]), "m3": mk(0, w.T.id, keys["m3"])}
-	mstate := map[string]string{"m1": "active", "m2": "active", "m3": "active"}
-	idOf := map[string]string{maps["m1"].ID: "m1", maps["m2"].ID: "m2", maps["m3"].ID: "m3"}
+	maps := map[string]*models.PortMapping{"m1": mk(w.L.id, w.T.id, keys["m1"]), "m2": mk(w.S.id, w.X.id, keys["m2"]), "m3": mk(0, w.T.id, keys["m3"]),
+		"m4": mk(w.L.id, w.T.id, "")} // m4: a mapping that stores NO secret (as ActivateConnectionCode creates them)
+	mstate := map[string]string{"m1": "active", "m2": "active", "m3": "active", "m4": "active"}
+	idOf := map[string]string{maps["m1"].ID: "m1", maps["m2"].ID: "m2", maps["m3"].ID: "m3", maps["m4"].ID: "m4"}
 	routeM := map[int]string{} // mapping of the routing record the harness ("another node") registered per tunnel
 	fwdM := map[int]string{}   // mapping of the routing record at the moment a request was forwarded on that tunnel id
 	clients := map[string]client{"L": w.L, "T": w.T, "S": w.S, "X": w.X, "half": w.S}
-	listenOf := map[string]string{"m1": "L", "m2": "S", "m3": "-"}
-	targetOf := map[string]string{"m1": "T", "m2": "X", "m3": "T"}
+	listenOf := map[string]string{"m1": "L", "m2": "S", "m3": "-", "m4": "L"}
+	targetOf := map[string]string{"m1": "T", "m2": "X", "m3": "T", "m4": "T"}
 
 	var opens []*hOpen
 	var srvFakes []*fakeConn
@@ -251,6 +253,7 @@ func runHist(w *world, in histIn) (out histOut) {
 				}
 				if o.herr != nil && strings.Contains(o.herr.Error(), "cross-node forwarding") {
 					fwdM[o.tun] = routeM[o.tun]
+					o.fwdMap = routeM[o.tun]
 					checkAttach(step, o, routeM[o.tun], "was forwarded to the tunnel's node when its routing poll fired")
 				}
 			}
@@ -271,6 +274,8 @@ func runHist(w *world, in histIn) (out histOut) {
 				mid = 2
 			} else if idOf[b.GetMappingID()] == "m3" {
 				mid = 3
+			} else if idOf[b.GetMappingID()] == "m4" {
+				mid = 4
 			}
 			s = append(s, 1, mid, byStream(b.GetSourceTunnelConn()), byStream(b.GetTargetTunnelConn()))
 		}
@@ -377,7 +382,7 @@ func runHist(w *world, in histIn) (out histOut) {
 			}
 			req := &packet.TunnelOpenRequest{TunnelID: tunID[st.Tun]}
 			named := ""
-			if st.Mid == "m1" || st.Mid == "m2" || st.Mid == "m3" {
+			if st.Mid == "m1" || st.Mid == "m2" || st.Mid == "m3" || st.Mid == "m4" {
 				named = st.Mid
 				req.MappingID = maps[named].ID
 			}
@@ -388,6 +393,8 @@ func runHist(w *world, in histIn) (out histOut) {
 					right, other = keys["m2"], keys["m1"]
 				} else if named == "m3" {
 					right = keys["m3"]
+				} else if named == "m4" {
+					right = "" // nothing stored: "the mapping's secret" is the empty string = presenting no secret
 				}
 				req.SecretKey = secretFor(st.Secret, right, other)
 			}
@@ -395,6 +402,9 @@ func runHist(w *world, in histIn) (out histOut) {
 			if authed && named != "" && (mstate[named] == "active" || mstate[named] == "soon60s") {
 				isL, isT := listenOf[named] == st.Who, targetOf[named] == st.Who
 				o.entNamed = (isL && st.Secret == "none") || ((isL || isT) && st.Secret == "right")
+				if named == "m4" { // no stored secret: only the listening client with the mapping id alone
+					o.entNamed = isL && (st.Secret == "none" || st.Secret == "right")
+				}
 			}
 			// the mapping the tunnel belongs to at arrival
 			tunnelMapping := named
@@ -481,6 +491,7 @@ func runHist(w *world, in histIn) (out histOut) {
 				if o.herr != nil && strings.Contains(o.herr.Error(), "cross-node forwarding") {
 					so.Role = 4
 					fwdM[st.Tun] = routeM[st.Tun]
+					o.fwdMap = routeM[st.Tun]
 					checkAttach(i, o, routeM[st.Tun], "was forwarded to the tunnel's node")
 				}
 			}
@@ -566,7 +577,13 @@ func runHist(w *world, in histIn) (out histOut) {
 		for _, o := range opens {
 			if bytes.Contains(o.fc.output(), marker) && k >= 0 {
 				out.Readers = append(out.Readers, fmt.Sprintf("step%d@peer-tun%d", o.step, k))
-				checkAttach(len(in.Steps), o, fwdM[k], "read the bytes the tunnel's node wrote")
+				// a forwarded request is judged against the record it was forwarded on (the harness's fake peer lets a history
+				// replace the record of a live tunnel on the SAME node, which a real node does not do while its bridge lives)
+				tm := fwdM[k]
+				if o.fwdMap != "" {
+					tm = o.fwdMap
+				}
+				checkAttach(len(in.Steps), o, tm, "read the bytes the tunnel's node wrote")
 			}
 		}
 	}
